@@ -3,37 +3,42 @@ use crate::runtime::RuntimeLimits;
 use crate::runtime_scope::{RuntimeScope, RuntimeScopeTemplate};
 use crate::xexpr::TailedEvalResult;
 
-#[kani::proof]
-#[kani::stub(std::collections::hash_map::RandomState::new, stub_rs)]
-#[kani::stub(crate::root_compilation_scope::RootCompilationScope::identifier, stub_identifier)]
+/// contract of num-bigint's `to_f64`: Some(any float, including the infinities for out-of-range values) or None
+fn any_to_f64(_this: &LazyBigint) -> Option<f64> {
+    if kani::any() {
+        Some(kani::any())
+    } else {
+        None
+    }
+}
+native_harness! {
+#[kani::stub(<crate::util::lazy_bigint::LazyBigint as num_traits::ToPrimitive>::to_f64, any_to_f64)]
 #[kani::unwind(4)]
-fn c14_p7_native_int_div() {
-    let mut root = RootCompilationScope::<(), (), ()>::new();
-    add_int_div(&mut root).unwrap();
+fn c13_int_to_float() {
+    let mut root = RootCompilationScope::<P, P, P>::new();
+    add_int_to_float(&mut root).unwrap();
     let nc = last_native(&root);
     let rt: Rt = no_limits();
     let ns = crate::runtime_scope::verif_kani::bare_scope();
-    let a = any_canonical();
-    let b = any_canonical();
-    let bz = b.is_zero();
-    let args = vec![int(a, &rt), int(b, &rt)];
+    let args = vec![int(LazyBigint::Short(kani::any()), &rt)]; // the stub ignores the value
     let r = nc(&args, &ns, false, rt.clone());
-    match r {
+    match &r {
         Ok(TailedEvalResult::Value(Ok(v))) => {
             match &v.value {
-                XValue::Float(f) => assert!(f.is_finite()),
-                _ => assert!(false),
+                XValue::Float(f) => assert!(f.is_finite(), "int.to_float yields a finite float"),
+                _ => assert!(false, "to_float returns a float"),
             }
-            std::mem::forget(v);
+            kani::cover!(true, "finite conversion");
         }
-        Ok(TailedEvalResult::Value(Err(e))) => {
-            assert!(bz);
-            std::mem::forget(e);
+        Ok(TailedEvalResult::Value(Err(_))) => {
+            kani::cover!(true, "out-of-range conversion is an error value");
         }
-        _ => assert!(false),
+        _ => assert!(false, "no violation"),
     }
+    std::mem::forget(r);
     std::mem::forget(args);
     std::mem::forget(ns);
     std::mem::forget(root);
     std::mem::forget(rt);
+}
 }
